@@ -515,12 +515,30 @@ func runCase(d descriptor) *result {
 	// goroutines - throw events of several processes fire together. Only when
 	// the outcome cannot depend on the order: no catcher process is still on
 	// its way to its catch event (a throw that finds nobody listening is lost).
+	// filterKind != "": answerAll answers the pending tasks of processes of that
+	// kind only (and skips the order-independence guard, which is about throws)
+	filterKind := ""
 	answerAll := func() *result {
 		pm := pendingModel()
+		if filterKind != "" {
+			var keep []struct {
+				i   *inst
+				idx int
+			}
+			for _, x := range pm {
+				if bt.procs[x.i.proc].spec.Kind == filterKind {
+					keep = append(keep, x)
+				}
+			}
+			pm = keep
+		}
 		if len(pm) < 2 {
 			return answer(0)
 		}
 		for _, i := range insts {
+			if filterKind != "" {
+				break
+			}
 			bp := bt.procs[i.proc]
 			if bp.spec.Kind != "catcher" || len(i.m.Pending) == 0 {
 				continue
@@ -583,6 +601,13 @@ func runCase(d descriptor) *result {
 		switch a.Kind {
 		case "answerAll":
 			if res := answerAll(); res != nil {
+				return res
+			}
+		case "answerCatchers":
+			filterKind = "catcher"
+			res := answerAll()
+			filterKind = ""
+			if res != nil {
 				return res
 			}
 		case "answer":
@@ -675,6 +700,29 @@ func draw(rt *rapid.T) descriptor {
 		d.Procs = append(d.Procs, tgt)
 		d.Actions = append(d.Actions, action{Kind: "answerAll"})
 		for i := rapid.IntRange(0, 6).Draw(rt, "actions"); i > 0; i-- {
+			d.Actions = append(d.Actions, action{Kind: rapid.SampledFrom([]string{"answer", "answerAll", "wait"}).Draw(rt, "akind"), Arg: rapid.IntRange(0, 5).Draw(rt, "arg")})
+		}
+		return d
+	}
+	if rapid.IntRange(0, 5).Draw(rt, "manyCatchers") == 0 {
+		// 4..12 processes whose catch events start to listen at the same time
+		// (right at the start, or when their single tasks are answered together),
+		// then one process throws into every one of them at once
+		k := rapid.IntRange(4, 12).Draw(rt, "catchers")
+		pre := rapid.IntRange(0, 1).Draw(rt, "catcherPre")
+		fan := procSpec{Kind: "fanThrower", Pre: 1, Target: -1}
+		for i := 0; i < k; i++ {
+			fan.Fan = append(fan.Fan, 1+i)
+		}
+		d.Procs = append(d.Procs, fan)
+		for i := 0; i < k; i++ {
+			d.Procs = append(d.Procs, procSpec{Kind: "catcher", Pre: pre, Post: 0, Target: -1})
+		}
+		if pre == 1 {
+			d.Actions = append(d.Actions, action{Kind: "answerCatchers"})
+		}
+		d.Actions = append(d.Actions, action{Kind: "answer"})
+		for i := rapid.IntRange(0, 4).Draw(rt, "actions"); i > 0; i-- {
 			d.Actions = append(d.Actions, action{Kind: rapid.SampledFrom([]string{"answer", "answerAll", "wait"}).Draw(rt, "akind"), Arg: rapid.IntRange(0, 5).Draw(rt, "arg")})
 		}
 		return d
